@@ -29,7 +29,8 @@ RULE = ('1-6 concurrent callRemote()s (with/without deadline, expectReply, decla
 STATE_MEASURE = 'order type of the completion events (return/error/timeout/loss/sigmismatch) of a run'
 PROBES = ['reply-and-deadline-both-enabled', 'reply-after-timeout', 'duplicate-reply-delivered',
           'unsolicited-reply-delivered', 'loss-with-pending-calls', 'replies-out-of-call-order',
-          'sig-mismatch', 'call-issued-from-callback', 'second-connection-same-serials']
+          'sig-mismatch', 'call-issued-from-callback', 'second-connection-same-serials',
+          'identical-call-in-flight-twice']
 COMPONENTS = {
     'real': ['txdbus.client.DBusClientConnection (callRemote, callRemoteMessage, '
              'methodReturnReceived, errorReceived, _onMethodTimeout, connectionLost, _cbCvtReply)',
@@ -54,6 +55,8 @@ class Call:
         self.expect_reply = True
         self.obs = None
         self.done = None           # expected completion once decided by the model
+        self.member = None
+        self.sig = None
 
 
 def expected_value(m):
@@ -205,7 +208,12 @@ def scenario(ctx):
         before = set(id(t) for t in sim.timers)
         nsent = len(rig.sent)
         sim.log('op', 'call', cid, sig, sorted(kw.items(), key=str))
-        d = rig.call(cl.callRemote, '/svc', 'M%d' % cid, interface=SVC_IFACE,
+        # pollers repeat themselves: the very same call may be in flight more than once
+        member = 'M%d' % cid if ds.flag(0.6) else ds.pick(['Poll', 'Refresh'])
+        if any((not o.done) and o.member == member and o.sig == sig for o in calls[:-1]) and not sig:
+            sim.probe('identical-call-in-flight-twice')
+        c.member, c.sig = member, sig
+        d = rig.call(cl.callRemote, '/svc', member, interface=SVC_IFACE,
                      destination=SVC_DEST, signature=sig or None, body=body, **kw)
         c.obs = Obs(sim, cid, sink).watch(d)
         new = [t for t in sim.timers if id(t) not in before]
